@@ -7,6 +7,7 @@ package graph
 
 //@ func (b *Builder) IsStaleEdgePolicy
 //@   props C20
+//@   bounds-safe
 //@   let err      = retn(HasV1ChannelEdge, 4)
 //@   let isZombie = retn(HasV1ChannelEdge, 3)
 //@   let exists   = retn(HasV1ChannelEdge, 2)
@@ -25,28 +26,33 @@ package graph
 //@
 //@ func (b *Builder) assertNodeAnnFreshness
 //@   props C20
+//@   bounds-safe
 //@   ensures result == nil ==> retn(HasV1Node, 2) == nil && retn(HasV1Node, 1) && ret(Before)
 //@   site call HasV1Node: assert arg(2) == node
 //@   site call Before: assert arg(0) == retn(HasV1Node, 0) && arg(1) == msgTimestamp
 //@
 //@ func (b *Builder) IsStaleNode
 //@   props C20
+//@   bounds-safe
 //@   ensures result <==> ret(assertNodeAnnFreshness) != nil
 //@   site call assertNodeAnnFreshness: assert arg(node) == node && arg(msgTimestamp) == timestamp
 //@
 //@ func (b *Builder) addNode
 //@   props C20
+//@   bounds-safe
 //@   site call AddNode: assert ret(assertNodeAnnFreshness) == nil && arg(2) == node
 //@   site call assertNodeAnnFreshness: assert arg(2) == node.PubKeyBytes
 //@   ensures result == nil ==> ret(assertNodeAnnFreshness) == nil && ret(AddNode) == nil
 //@
 //@ func (b *Builder) addEdge
 //@   props C20
+//@   bounds-safe
 //@   site call AddChannelEdge: assert !retn(HasChannelEdge, 0) && !retn(HasChannelEdge, 1) && arg(2) == edge
 //@   site call HasChannelEdge: assert arg(3) == edge.ChannelID
 //@
 //@ func (b *Builder) updateEdge
 //@   props C20
+//@   bounds-safe
 //@   site call UpdateEdgePolicy: assert retn(HasV1ChannelEdge, 2) && arg(2) == policy &&
 //@        (policy.ChannelFlags % 2 == 0 ==> ret(Before, 0)) && (policy.ChannelFlags % 2 == 1 ==> ret(Before, 1))
 //@   site call HasV1ChannelEdge: assert arg(2) == policy.ChannelID
